@@ -239,17 +239,20 @@ PROPS = {
         verus_units=['broker_bus_listener', 'broker_handlers_bus_listener'],
         kani=[dict(package='aldrin-core', injections=[KANI_CORE_BUS], jobs=4)],
         trusted_base=TB_VERUS + TB_KANI + ['BusListenerFilter is an opaque hashable key in the Verus unit (key-model axiom)'],
-        assumptions=['handlers (start_bus_listener, emit_bus_event, process_loop_result) use these predicates as the '
-                     'property says: NOT verified (handler layer)'],
+        assumptions=['WHICH events start_bus_listener / emit_bus_event send is decided by BusListener::{matches_object, '
+                     'matches_service, matches_new_event, specific_objects, specific_services}: iterator-adapter code, assumed without '
+                     'contract; emit_bus_event and process_loop_result are not verified'],
         undecided_clauses=[
-            'current-enumeration loops, per-connection de-duplication, event ordering (broker.rs handlers)',
+            'that exactly the matching current entities are enumerated, per-connection de-duplication, event ordering',
             'cached flags under add_filter/remove_filter (|= on bool and iterator adapters are outside Verus; the '
             'HashSet<BusListenerFilter> + ConnectionId state is outside Kani)',
         ],
         explanation='filter predicate equals its specification for all six filter shapes, all ids and all four bus '
                     'events (Kani, complete); listener start/stop state machine and flag reset (Verus); handler layer: only the '
-                    'owning connection can destroy, stop or change the filters of a listener, a destroyed listener is gone, a '
-                    'stopped one is not started (Verus, against the contracts of BusListener and ConnectionState)',
+                    'owning connection can create, destroy, start, stop or change the filters of a listener, a new listener is not '
+                    'started, start succeeds once, a destroyed listener is gone, a stopped one is not started; tagged bus events and '
+                    'the end-of-current marker are only sent to the listener\'s owner (precondition of send) (Verus, against the '
+                    'contracts of BusListener and ConnectionState)',
     ),
     'C12': dict(
         level='proof',
